@@ -122,3 +122,5 @@ pub mod distill;
 pub mod linalg;
 pub mod pwl;
 pub mod tree;
+#[cfg(affinitree_verif)]
+pub mod verif_hooks;
